@@ -325,8 +325,11 @@ def c02_r6(ctx):
             probs.append("validation is not against the given schema")
         r = kw(c, "rules")
         if r is not None:
-            ok = isinstance(r, (ast.ListComp, ast.GeneratorExp)) and norm(r.generators[0].iter) == "specified_rules" and norm(r.elt) == norm(r.generators[0].target) \
-                and [norm(i) for i in r.generators[0].ifs] == [f"{norm(r.generators[0].target)} is not NoUnusedFragmentsRule"]
+            from ..util import comp_struct
+            rr = r
+            while isinstance(rr, ast.Call) and isinstance(rr.func, ast.Name) and rr.func.id in ("tuple", "list") and len(rr.args) == 1 and not rr.keywords:
+                rr = rr.args[0]
+            ok = comp_struct(rr) == ("$0", [("specified_rules", ["$0 is not NoUnusedFragmentsRule"])])
             if not ok:
                 probs.append(f"rules are {norm(r)[:100]}; only NoUnusedFragmentsRule may be left out of specified_rules")
     ctx.check(not probs, key(fi, "rules"), "; ".join(probs), fi.loc(), okmsg="validate(schema, document, specified_rules minus NoUnusedFragmentsRule)")
